@@ -40,6 +40,19 @@ def shrink(run, tape, sig, max_execs=600, max_wall=120.0, log=None):
     improved = True
     while improved and execs[0] < max_execs and time.time() - t0 < max_wall:
         improved = False
+        # 0. delete whole generated operations (spans between the marks of the
+        #    last accepted run), last first
+        o = best_out[0]
+        marks = sorted(set((o or {}).get("marks") or []))
+        if marks:
+            spans = [(a, b) for a, b in zip(marks, marks[1:] + [len(best)]) if a < b <= len(best)]
+            for a, b in reversed(spans):
+                if b > len(best):
+                    continue
+                cand = best[:a] + best[b:]
+                if ok(cand):
+                    best = canonical() if len(canonical()) <= len(cand) else cand
+                    improved = True
         # 1. truncate (binary search on the length)
         lo, hi = 0, len(best)
         while lo < hi:
